@@ -5,4 +5,5 @@ CONSTANTS
   SetOrder = FALSE
   Timestamps = TRUE
   ComponentMemo = FALSE
+  FailureCorrupts = FALSE
 INVARIANT OutputIsFunctionOfModel
